@@ -9,6 +9,7 @@ import (
 	"fmt"
 	"io"
 	"net"
+	"os"
 	"strings"
 	"time"
 
@@ -24,6 +25,11 @@ type scriptConn struct {
 	writes int
 	failAt int // 1-based index of the first write that fails; 0 = never
 	port   int
+	// stallAt: the 1-based write that times out after the peer accepted only `accepted`
+	// bytes of it (a client that stopped reading); later writes succeed again.
+	stallAt, accepted int
+	stalled           bool
+	late              []byte // everything written after the half-sent write
 }
 
 func (c *scriptConn) Read(p []byte) (int, error) {
@@ -41,6 +47,15 @@ func (c *scriptConn) Write(p []byte) (int, error) {
 	c.writes++
 	if c.failAt > 0 && c.writes >= c.failAt {
 		return 0, errors.New("c10: scripted write failure")
+	}
+	if c.stallAt > 0 && c.writes == c.stallAt {
+		k := min(c.accepted, len(p))
+		c.out = append(c.out, p[:k]...)
+		c.stalled = true
+		return k, os.ErrDeadlineExceeded
+	}
+	if c.stalled {
+		c.late = append(c.late, p...)
 	}
 	c.out = append(c.out, p...)
 	return len(p), nil
@@ -151,6 +166,22 @@ func execTCP(f []string) vlib.Res {
 			or = fail("tcp/slab-not-returned", "a token is missing after the connection ended")
 		}
 		return vlib.Res{Impl: impl, Oracle: or, Tags: "nt"}
+	case "stall":
+		// tcp stall <write#> <accepted> <stream>: the <write#>-th write of the connection times out after
+		// <accepted> bytes; whatever the server does next, it must not put another byte on this stream
+		stream := vlib.UnHex(f[4])
+		c := &scriptConn{chunks: chunked(stream, "-"), stallAt: vlib.Atoi(f[2]), accepted: vlib.Atoi(f[3]), port: 1}
+		server.VerifC10NewTCP(scripted, nil, 8).Serve(c)
+		or := "ok"
+		if len(c.late) > 0 {
+			or = fail("tcp/stall/write-after-half-sent-frame", "%d more bytes were written after a write that timed out %d bytes in: the client's framing is shifted", len(c.late), c.accepted)
+		}
+		if or == "ok" {
+			_, rest := splitFrames(c.out)
+			or = judgeStream(stream, c.out[:len(c.out)-len(rest)], ownReply, "tcp/stall")
+		}
+		all := append(append([]byte(nil), c.out...), c.late...)
+		return vlib.Res{Impl: fmt.Sprintf("n=%d h=%016x", len(all), fnv64(all)), Oracle: or, Tags: "nt,stall"}
 	case "abort":
 		// connection 1 dies on a failed write with replies still staged; connection 2
 		// on the same engine (pooled stream, recycled slab) must see only its own replies
